@@ -69,7 +69,20 @@ U = None
 def thunks_table():
     u = mod('utils')
     sp = mod('sportshall_score')
+    def score_all():
+        return tuple(athlib.athlon_score(o['gender'], o['event_code'], 12.5 if o['event_code'] not in ('HJ', 'PV') else 2.0)
+                     for o in mod('athlon_score')._scoring_table)
+
+    def hung_all():
+        return tuple(athlib.hungarian_score(r[0], r[1], r[2], 50.0) for r in mod('hungarian_score').FACTORS[:60])
+
+    def sh_all():
+        marks = {'SLJ': '2.00', 'SHJ': '0.50', 'STJ': '6.00', 'SP': '8.00', 'BAL': '40', 'SPB': '50', 'TART': '15',
+                 'OHT': '8.00', '32H': '14.0', 'CHT': '7.00', '100': '30.0', 'JT': '20', '800': '180'}
+        return tuple(sp.sportshall_score(k, v) for k, v in sorted(marks.items()))
     return {
+        'score-all': score_all, 'hung-all': hung_all, 'sh-all': sh_all,
+        'sh-SHJ': lambda: sp.sportshall_score('SHJ', '0.50'),
         'score-M100': lambda: athlib.athlon_score('M', '100', 10.5),
         'score-FHJ': lambda: athlib.athlon_score('F', 'HJ', 1.8),
         'score-M100-age': lambda: athlib.athlon_score('M', '100', 12.5, age=52),
@@ -110,6 +123,11 @@ SCENARIOS = [
     ('hungarian-same', ['hung-M100', 'hung-M100'], 0),
     ('hungarian-diff', ['hung-M100', 'hung-FHJ'], 0),
     ('sportshall-diff', ['sh-SLJ', 'sh-800'], 0),
+    ('sportshall-shj', ['sh-800', 'sh-SHJ'], 0),
+    # one caller initialises, the other reads EVERY row / event: a half-finished table shows whichever entry it concerns
+    ('sportshall-all', ['sh-SLJ', 'sh-all'], 0),
+    ('score-all', ['score-FHJ', 'score-all'], 0),
+    ('hungarian-all', ['hung-M100', 'hung-all'], 0),
     ('factor-same', ['factor-M50-100', 'factor-M50-100'], 0),
     ('factor-diff', ['factor-M50-100', 'factor-F72-MAR'], 0),
     ('factor-interp', ['factor-M50-7K', 'factor-F72-MAR'], 0),
